@@ -74,7 +74,11 @@ Inductive op :=
    schedule (where each of the two producers is cut) *)
 | OParIter (s variant delta : N) (splits : list N)
 (* rayon: par_extend; the items arrive collected in pieces (one Vec per fold of the schedule) *)
-| OParExtend (s : N) (chunks : list (list (N * N * N))).
+| OParExtend (s : N) (chunks : list (list (N * N * N)))
+(* serde: Serialize (the declared length, then every element in iteration order); Deserialize is
+   OFromIter with the cautious size hint; HashSet::deserialize_in_place *)
+| OSerialize (s : N)
+| ODeserInPlace (s : N) (items : list (N * N * N)) (hint : N).
 
 Section Map.
 Context (c : cfg).
@@ -275,6 +279,21 @@ Definition map_par_extend (chunks : list (list (N * N * N))) : M' unit :=
   let reserve := if rt_len (s_rt s) =? 0 then len else (len + 1) / 2 in
   on_unwind (rt_reserve c false reserve) (iterM (fun x => drop_key (snd (fst x)) ;;; drop_val (snd x)) (concat chunks)) ;;;
   iterM (fun ch => map_extend ch (N.of_nat (length ch))) chunks.
+
+(* serde Serialize: collect_map / collect_seq over iter(): the iterator's exact length is declared
+   first, then each element is emitted in iteration order *)
+Definition map_serialize : M' (N * list (N * N * N)) :=
+  s <- get ;;
+  l <- rt_iter ;;
+  ret (rt_len (s_rt s), map (fun x => elem3 (snd x)) l).
+Definition cautious (hint : N) : N := N.min hint 4096.
+(* HashSet::deserialize_in_place: clear, reserve by the cautious hint, insert one by one *)
+Definition map_deser_in_place (items : list (N * N * N)) (hint : N) : M' unit :=
+  rt_clear ;;;
+  rt_reserve c false (cautious hint) ;;;
+  iterM (fun x => let '(k, kid, v) := x in
+                  o <- map_insert k kid v ;;
+                  match o with Some v' => drop_val v' | None => ret tt end) items.
 
 (* the owning iterators: drain() and into_iter(), consumed for j items, then dropped/forgotten *)
 Definition drain_order : M' (list elem) :=
@@ -701,6 +720,8 @@ Definition step (w : world) (t : traced) : res world out :=
   | OParIter s variant delta splits =>
       rmap (fun l => OutL (foldr insert_sorted [] l)) (with_slot w s on perm (map_par_iter delta splits))
   | OParExtend s chunks => rmap (fun _ => OutU) (with_slot_h w s on perm (map_par_extend c chunks))
+  | OSerialize s => rmap (fun r => OutS [OutN (fst r); OutL (snd r)]) (with_slot w s on perm map_serialize)
+  | ODeserInPlace s items hint => rmap (fun _ => OutU) (with_slot_h w s on perm (map_deser_in_place c items hint))
   end.
 
 (* the harness catches every panic: the history goes on *)
